@@ -98,6 +98,39 @@ def tag_overrides_rule(chk, P, key):
     chk.ob(key, "no sval stream of the OTLP encoders overrides `tag` without examining the tag (Option::None stays null)", f)
 
 
+# ---- R6: value conversions in the sinks keep the value ---------------------------------------------------------------------------------
+LOSSY_ALLOW = {
+    (r"^emit_file::rolling_millis$", "u128", "u32"): "milliseconds within one day/hour/minute fit 32 bits",
+    (r"^emit_file::rolling_id$", "u64", "u32"): "a random id: truncation keeps randomness",
+    (r"LogsEventEncoder as emit_otlp::data::EventEncoder>::encode_event", "u128", "u64"): "unix nanoseconds until 2554 fit 64 bits (OTLP's field type)",
+    (r"MetricsEventEncoder as emit_otlp::data::EventEncoder>::encode_event", "u128", "u64"): "unix nanoseconds (OTLP's field type)",
+    (r"TracesEventEncoder as emit_otlp::data::EventEncoder>::encode_event", "u128", "u64"): "unix nanoseconds (OTLP's field type)",
+}
+INT = {"u8": (0, 2 ** 8 - 1), "u16": (0, 2 ** 16 - 1), "u32": (0, 2 ** 32 - 1), "u64": (0, 2 ** 64 - 1), "usize": (0, 2 ** 64 - 1),
+       "u128": (0, 2 ** 128 - 1), "i8": (-2 ** 7, 2 ** 7 - 1), "i16": (-2 ** 15, 2 ** 15 - 1), "i32": (-2 ** 31, 2 ** 31 - 1),
+       "i64": (-2 ** 63, 2 ** 63 - 1), "isize": (-2 ** 63, 2 ** 63 - 1), "i128": (-2 ** 127, 2 ** 127 - 1)}
+
+
+def lossless_casts_rule(chk, P, key):
+    def lossless_casts():
+        n = 0
+        for b in P.bodies.values():
+            if b.crate not in ("emit_otlp", "emit_file", "emit_term") or "generated" in b.file:
+                continue
+            for bb, j, st in b.statements(normal_only=True):
+                if st["k"] != "assign" or st["rv"]["k"] != "cast":
+                    continue
+                f, t = st["rv"].get("from_ty"), st["rv"].get("ty")
+                if f in INT and t in INT and not (INT[t][0] <= INT[f][0] and INT[f][1] <= INT[t][1]):
+                    n += 1
+                    if not any(re.search(rx, b.key) and f == ff and t == tt for (rx, ff, tt) in LOSSY_ALLOW):
+                        return False, ("%s casts %s to %s with `as` at %s:%s: a value outside the target's range changes (wraps or changes sign) on "
+                                       "its way to the output - e.g. a u64 above i64::MAX would be exported as a negative intValue instead of decimal "
+                                       "text" % (b.key, f, t, b.file, st.get("line"))), [], "%s:%s" % (b.file, st.get("line"))
+        return True, "", ["%d narrowing casts, all in the allow table" % n]
+    chk.ob(key, "no integer is narrowed or sign-changed with `as` on its way to a sink's output (outside a reasoned table of timestamps/ids)", lossless_casts)
+
+
 def run(chk):
     P = mir.Program("K1")
     chk.use_program(P)
@@ -398,35 +431,7 @@ def run(chk):
         return True, "", ["%d tagged labels, all Label::new(<identifier literal>)" % n]
     chk.ob("C13.R5:identifier-tags", "only labels that are identifier literals carry the no-escaping hint; computed keys are escaped", ident_tags)
 
-    # ---- R6: value conversions in the sinks keep the value ---------------------------------------------------------------------------------
-    LOSSY_ALLOW = {
-        (r"^emit_file::rolling_millis$", "u128", "u32"): "milliseconds within one day/hour/minute fit 32 bits",
-        (r"^emit_file::rolling_id$", "u64", "u32"): "a random id: truncation keeps randomness",
-        (r"LogsEventEncoder as emit_otlp::data::EventEncoder>::encode_event", "u128", "u64"): "unix nanoseconds until 2554 fit 64 bits (OTLP's field type)",
-        (r"MetricsEventEncoder as emit_otlp::data::EventEncoder>::encode_event", "u128", "u64"): "unix nanoseconds (OTLP's field type)",
-        (r"TracesEventEncoder as emit_otlp::data::EventEncoder>::encode_event", "u128", "u64"): "unix nanoseconds (OTLP's field type)",
-    }
-    INT = {"u8": (0, 2 ** 8 - 1), "u16": (0, 2 ** 16 - 1), "u32": (0, 2 ** 32 - 1), "u64": (0, 2 ** 64 - 1), "usize": (0, 2 ** 64 - 1),
-           "u128": (0, 2 ** 128 - 1), "i8": (-2 ** 7, 2 ** 7 - 1), "i16": (-2 ** 15, 2 ** 15 - 1), "i32": (-2 ** 31, 2 ** 31 - 1),
-           "i64": (-2 ** 63, 2 ** 63 - 1), "isize": (-2 ** 63, 2 ** 63 - 1), "i128": (-2 ** 127, 2 ** 127 - 1)}
-
-    def lossless_casts():
-        n = 0
-        for b in P.bodies.values():
-            if b.crate not in ("emit_otlp", "emit_file", "emit_term") or "generated" in b.file:
-                continue
-            for bb, j, st in b.statements(normal_only=True):
-                if st["k"] != "assign" or st["rv"]["k"] != "cast":
-                    continue
-                f, t = st["rv"].get("from_ty"), st["rv"].get("ty")
-                if f in INT and t in INT and not (INT[t][0] <= INT[f][0] and INT[f][1] <= INT[t][1]):
-                    n += 1
-                    if not any(re.search(rx, b.key) and f == ff and t == tt for (rx, ff, tt) in LOSSY_ALLOW):
-                        return False, ("%s casts %s to %s with `as` at %s:%s: a value outside the target's range changes (wraps or changes sign) on "
-                                       "its way to the output - e.g. a u64 above i64::MAX would be exported as a negative intValue instead of decimal "
-                                       "text" % (b.key, f, t, b.file, st.get("line"))), [], "%s:%s" % (b.file, st.get("line"))
-        return True, "", ["%d narrowing casts, all in the allow table" % n]
-    chk.ob("C13.R6:lossless-int-casts", "no integer is narrowed or sign-changed with `as` on its way to a sink's output (outside a reasoned table of timestamps/ids)", lossless_casts)
+    lossless_casts_rule(chk, P, "C13.R6:lossless-int-casts")
 
     def id_carriers():
         """The id types of the two raw encoders carry the id itself: the JSON (text) ones stream the id's own Display - 32 / 16 lower-case hex
